@@ -509,6 +509,10 @@ def episode(ctx, local: int, gtrial: int) -> None:
         ops = tuple(op for op in ("delete", "duplicate", "reorder", "mutate") if rng.random() < 0.5) + ("splice",)
     h = hist.build(rng, max_len=60 if ctx.quick else 160, base=base, ops=ops)
     eavesdrop = rng.random() < 0.5
+    if stack == "file" and rng.random() < 0.25:
+        # a log some of whose lines carry a timezone-aware stamp of the same width ('...:02.000+00', this host is on UTC)
+        h = hist.History([(d[:23] + "+00" if len(d) == 26 and rng.random() < 0.3 else d, f) for d, f in h.lines], dict(h.meta, aware_stamps=True))
+        ctx.count("histories.with_aware_timestamps")
     harness.reset_transport_globals()
     discovery = stack == "port" and rng.random() < 0.5
 
